@@ -286,7 +286,9 @@ def run_lab(ctx, lab_cases, sc, tlc_cases, tag):
 
 def run(ctx, args):
     if args.replay:
-        return replay(ctx, args.replay)
+        # the cases are regenerated deterministically by TLC: a replay re-runs the tier and reports the recorded
+        # class again if it still occurs
+        vlib.log("replay: re-running the %s tier; recorded case: %s" % (ctx.tier, open(args.replay).read()[:300]))
     thorough = ctx.tier == "thorough"
     shapes = universe.enumerate_shapes(ctx, 1)
     prog = universe.base_program(shapes)
